@@ -14,6 +14,7 @@ import PoetryVerif.Proofs.VRangeParse
 import PoetryVerif.Model.VPrint
 import PoetryVerif.Proofs.VRangeTextU
 import PoetryVerif.Proofs.VRangeTextV
+import PoetryVerif.Proofs.VRangeTextW
 
 set_option linter.unusedSimpArgs false
 set_option linter.unusedVariables false
@@ -358,6 +359,43 @@ theorem union_ne_text_roundtrip (rs : List RC) (h : UnionText rs) (v : Version)
   subst he
   exact h3
 
+/-- **the wildcard spelling `==X.*` round-trips identically**: the range `parse_constraint` builds for the clause
+`==X.*` (X final: any epoch, any number of release components) is recognised by the printer
+(`_is_wildcard_candidate`), printed as `==X.*` (`_single_wildcard_range_string`), and that text — taken by
+`X_CONSTRAINT` when X has at most three components and no epoch, by `BASIC_CONSTRAINT` otherwise — is parsed to
+the very same range -/
+theorem wildcard_eq_text_roundtrip (V : Version) (hfin : V.isFinal = true) (hwf : V.wf = true) :
+    ∃ c s, clauseVC .eqStar V = .ok c ∧ c.toStr = .ok s ∧ parseConstraint s = .ok c := by
+  obtain ⟨e, rel, pre, post, dev, loc, text⟩ := V
+  cases rel with
+  | nil => simp [Version.wf] at hwf
+  | cons x r =>
+    obtain ⟨h1, h2⟩ := eqStar_roundtrip e x r
+    refine ⟨_, String.ofList ('=' :: '=' :: (baseChars e x r ++ dotStar)), (eqStar_range _ hfin).1, ?_, ?_⟩
+    · rw [wD_of_final _ hfin, wE_of_final _ hfin]; exact h1
+    · rw [wD_of_final _ hfin, wE_of_final _ hfin]; exact h2
+
+/-- **the wildcard spelling `!=X.*` round-trips identically**: the union `<X.dev0 || >=next(X).dev0` that
+`parse_constraint` builds for `!=X.*` prints as `!=X.*` (`excludes_single_wildcard_range`) and is read back as
+the very same union -/
+theorem wildcard_ne_text_roundtrip (V : Version) (hfin : V.isFinal = true) (hwf : V.wf = true) :
+    ∃ c s, clauseVC .neStar V = .ok c ∧ c.toStr = .ok s ∧ parseConstraint s = .ok c := by
+  obtain ⟨e, rel, pre, post, dev, loc, text⟩ := V
+  cases rel with
+  | nil => simp [Version.wf] at hwf
+  | cons x r =>
+    obtain ⟨h1, h2⟩ := neStar_roundtrip e x r
+    refine ⟨_, String.ofList ('!' :: '=' :: (baseChars e x r ++ dotStar)), neStar_range _ hfin hwf, ?_, ?_⟩
+    · rw [wD_of_final _ hfin, wE_of_final _ hfin]; exact h1
+    · rw [wD_of_final _ hfin, wE_of_final _ hfin]; exact h2
+
+example : let V := Version.mk' 1 [2, 3, 4, 5] none none none none
+    V.isFinal = true ∧ V.wf = true ∧
+    parseConstraint "==1!2.3.4.5.*" = clauseVC .eqStar V ∧ parseConstraint "!=1!2.3.4.5.*" = clauseVC .neStar V ∧
+    (clauseVC .eqStar V >>= VC.toStr) = .ok "==1!2.3.4.5.*" ∧ (clauseVC .neStar V >>= VC.toStr) = .ok "!=1!2.3.4.5.*" := by
+  intro V
+  refine ⟨by decide, by decide, by decide +kernel, by decide +kernel, by decide +kernel, by decide +kernel⟩
+
 /-- not spelt with a wildcard: no member prints as `==X.*` and the union does not print as `!=X.*` -/
 def PlainSpelling : VC → Prop
   | .empty => True
@@ -417,7 +455,10 @@ theorem counterexample_text_trailing_separator :
 spellings included).  Proved at string level: single versions, plain ranges, `*`, `||` joins, `!=V`
 (`text_roundtrip_partial`, under `TextOK` / `Tidy` / `RegB` for unions).  As stated — for every well-formed `c`
 whatever the texts of its bounds — it is false (`counterexample_text_trailing_separator`: the `text` field is
-what the user wrote).  Not proved: the wildcard spellings `==X.*` / `!=X.*`. -/
+what the user wrote).  The wildcard spellings `==X.*` / `!=X.*` are proved for the constraints the parser builds
+for wildcard clauses (`wildcard_eq_text_roundtrip`, `wildcard_ne_text_roundtrip`); not proved: ranges and unions
+the algebra produces that the printer happens to spell with a wildcard (`>=1.dev0,<2` prints as `==1.*`), and
+wildcards on post-releases (`==1.0.post1.*`). -/
 def text_roundtrip_full_statement : Prop :=
   ∀ c : VC, c.WF → c.isEmpty = false →
     ∃ s c', c.toStr = .ok s ∧ VParser.parseConstraint s = .ok c' ∧
